@@ -656,6 +656,11 @@ func (e *Engine) execSelect(st *State, f *Frame, ins *ssa.Select) {
 		f.pc++
 		return
 	}
+	// nothing is ready: a goroutine parked by the "lazy" policy gets to run now, then the
+	// select is evaluated again
+	if e.runLazyGo(st, ins) {
+		return
+	}
 	// nothing is ready and nobody else runs: the only thing that can happen is that an active
 	// timer fires (the wait times out)
 	ri = 0
@@ -1000,4 +1005,16 @@ func (e *Engine) reportPanic(st *State, pv Value) {
 		}
 	}
 	e.recordViolation(st, "panic", msg, site, nil)
+}
+
+// runLazyGo starts the oldest goroutine parked by the "lazy" go policy; the instruction at
+// which the current frame is blocked is re-executed when it returns.
+func (e *Engine) runLazyGo(st *State, at ssa.Instruction) bool {
+	if len(st.goDeferred) == 0 {
+		return false
+	}
+	d := st.goDeferred[0]
+	st.goDeferred = append([]deferRec(nil), st.goDeferred[1:]...)
+	e.callValue(st, d.fn, d.args, retRerun, at)
+	return true
 }
